@@ -73,8 +73,10 @@ namespace rkcommon {
       parallel_for(numBlocks, [&](INDEX_T blockID) {
         INDEX_T begin = blockID * (INDEX_T)BLOCK_SIZE;
         // nTasks - begin >= 1 here; begin + BLOCK_SIZE is only formed when it
-        // does not exceed nTasks
-        INDEX_T end   = (nTasks - begin > (INDEX_T)BLOCK_SIZE)
+        // does not exceed nTasks. The comparison must not narrow BLOCK_SIZE to
+        // INDEX_T: a block size above the maximum of INDEX_T means one block
+        using wide_t  = unsigned long long;
+        INDEX_T end   = (wide_t(nTasks - begin) > wide_t(BLOCK_SIZE))
                             ? INDEX_T(begin + (INDEX_T)BLOCK_SIZE)
                             : nTasks;
         fcn(begin, end);
